@@ -93,3 +93,8 @@ Theorem new_bad_limit_panics :
 Proof.
   intros. unfold run_new, cache_new, new_bad_limit. destruct (Z.leb_spec lim 0); [reflexivity|lia].
 Qed.
+
+(* the call shape of cache.go / lru.go that the model's hand-written skeleton assumes, computed on
+   the regenerated Gen files *)
+Theorem store_shape_ok : store_shape = true.
+Proof. vm_compute. reflexivity. Qed.
